@@ -13,7 +13,7 @@ import (
 	"github.com/Eyevinn/mp4ff/mp4"
 )
 
-const boxRule = "cases = every distinct box (any nesting level, up to 64 kB) of the repository's media files, structured mutations of each (version 0/1/2/3/255, flag bits, field bytes to 0/1/7f/80/ff/random, truncation and extension with the size field fixed up, 16-byte large-size header), whole files through DecodeFile/DecodeFileSR and both encoders in box-tree and segment mode; each accepted byte string goes through DecodeBox, DecodeBoxSR, Encode, EncodeSW, Size, Info and a second decode/encode cycle; files are also decoded under every decode-flag configuration (ISM, start-on-moof, both) and, with a random-access index (mfra with 0..n tfra children + mfro) appended, under all of them; lazily decoded files get their mdat payloads back through SetData (same / shorter / longer / empty); mdat boxes go through random histories of their public mutators (AddSampleData, AddSampleDataPart, SetData, SetLazyDataSize incl. the 2^32 boundary) from new / decoded / lazily decoded start states, with each encoder running first on an identically built twin; avcC / hvcC records (hand-serialised with 0..3 NAL units per array, and built through CreateAvcC / CreateHvcC / NewNaluArray / SetAVCDescriptor / SetHEVCDescriptor with parameter-set lists of length 0..2) and meta boxes in ISO and QuickTime style (alone and inside udta); non-trivial = distinct accepted byte string"
+const boxRule = "cases = every distinct box (any nesting level, up to 64 kB) of the repository's media files, structured mutations of each (version 0/1/2/3/255, flag bits, field bytes to 0/1/7f/80/ff/random, truncation and extension with the size field fixed up, 16-byte large-size header), whole files through DecodeFile/DecodeFileSR and both encoders in box-tree and segment mode; each accepted byte string goes through DecodeBox, DecodeBoxSR, Encode, EncodeSW, Size, Info and a second decode/encode cycle; files are also decoded under every decode-flag configuration (ISM, start-on-moof, both) and, with a random-access index (mfra with 0..n tfra children + mfro) appended, under all of them; lazily decoded files get their mdat payloads back through SetData (same / shorter / longer / empty); mdat boxes go through random histories of their public mutators (AddSampleData, AddSampleDataPart, SetData, SetLazyDataSize incl. the 2^32 boundary) from new / decoded / lazily decoded start states, with each encoder running first on an identically built twin; avcC / hvcC records (hand-serialised with 0..3 NAL units per array, and built through CreateAvcC / CreateHvcC / NewNaluArray / SetAVCDescriptor / SetHEVCDescriptor with parameter-set lists of length 0..2) and meta boxes in ISO and QuickTime style (alone and inside udta); esds boxes whose ES / DecoderConfig descriptors carry optional and unknown descriptors at every position in every size-field form (alone, in mp4a, in stsd) and, built through CreateEsdsBox / CreateRawDescriptor, decoder configurations and raw payloads of every length around the values where a descriptor size needs one more size byte; non-trivial = distinct accepted byte string"
 
 func init() {
 	for _, p := range []string{"C01", "C02", "C03"} {
@@ -27,6 +27,13 @@ func execBox(req string) string {
 	var f []string
 	for _, x := range bytes.Fields([]byte(req)) {
 		f = append(f, string(x))
+	}
+	if len(f) == 2 && strings.HasPrefix(f[0], "esds.") {
+		bs, err := unhx(f[1])
+		if err != nil {
+			return "bad-op"
+		}
+		return execEsds(f[0], bs)
 	}
 	if len(f) == 2 && f[0] == "box.rt" {
 		bs, err := unhx(f[1])
@@ -178,6 +185,7 @@ func genBoxProps(c *Ctx, which string) {
 			}
 		}
 	}
+	genEsdsBoxes(c, which) // c0102esds.go (last: the random stream of the generators above is unchanged)
 }
 
 func fileSummary(d []byte) string {
@@ -407,6 +415,11 @@ func checkSizeFieldsFile(enc []byte) string {
 
 func modelCase(c *Ctx, which string, bs []byte) {
 	if len(bs) < 8 || len(bs) > 4096 || !modelledBoxes[string(bs[4:8])] || !exactBox(bs) {
+		return
+	}
+	if binary.BigEndian.Uint32(bs) == 1 && len(bs) >= 16 && binary.BigEndian.Uint64(bs[8:]) != uint64(len(bs)) {
+		// the model's contract is one exact box (Model/Boxes.lean roundTrip); a byte mutation inside a 16-byte header
+		// makes the box declare another length than the candidate has (the reader path then reads only that many bytes)
 		return
 	}
 	req := "box.rt " + hx(bs)
